@@ -244,10 +244,10 @@ def run_task(pid, sub: Sub, tier, seed, shard, nshards, open_entries):
             for _round in range(4):
                 acc.target_kind = None
                 acc.last_fail = None
-                counting = _round == 0
+                acc.counting = _round == 0
 
-                def body(case, _counting=counting):
-                    v = acc.run(case, budget, counting=_counting)
+                def body(case):
+                    v = acc.run(case, budget, counting=acc.counting)
                     if v is None or v.kind in acc.done_kinds:
                         return
                     if acc.target_kind is None:
@@ -258,7 +258,8 @@ def run_task(pid, sub: Sub, tier, seed, shard, nshards, open_entries):
                     acc.last_fail = (v, case)
                     raise _Fail(v.kind)
 
-                test = hypothesis.seed(seed * 1000003 + shard * 7919 + _round)(
+                sub_salt = int(jhash([pid, sub.name]), 16) % 100003
+                test = hypothesis.seed(seed * 1000003 + shard * 7919 + _round + sub_salt * 31)(
                     _hyp_settings(n)(given(strat)(body))
                 )
                 try:
